@@ -406,6 +406,44 @@ let handle_tree fields =
     if orc <> "ok" then oracle_fail "tree" txt orc
   | _ -> raise (Parse "bad tree line")
 
+
+(* ---------- family: semt (declaration / assignment type rules, C08) ---------- *)
+let lit_of_string = function
+  | "none" -> TypeRules.NotLiteral | "int+" -> TypeRules.LitInt true | "int-" -> TypeRules.LitInt false
+  | "other" -> TypeRules.LitOther | s -> raise (Parse ("lit " ^ s))
+let c08_key = function 201 -> "C08.decl_const_narrow" | 202 -> "C08.decl_literal_width"
+                     | 203 -> "C08.assign_int_literal" | _ -> "?"
+let handle_semt fields =
+  match fields with
+  | [form; st; sv; slit; impl; orc] ->
+    let input = form ^ " | " ^ st ^ " | " ^ sv ^ " | " ^ slit in
+    count_case input true; sample "semt" input impl;
+    if is_prefix "PANIC" impl then (if orc <> "ok" then oracle_fail "semt" input orc)
+    else begin
+      let t = ty_of_string st and v = ty_of_string sv and lit = lit_of_string slit in
+      let cast = field "cast" impl = "1" and diag = field "diag" impl = "1" in
+      (* literal typing (C08): an integer literal is const int[128]; every literal is const *)
+      (match lit with
+       | TypeRules.LitInt _ -> if sv <> "Int 128 1" then oracle_fail "semt" input ("FAIL C08: integer literal typed " ^ sv)
+       | TypeRules.LitOther -> if not (Types.is_const v) then oracle_fail "semt" input ("FAIL C08: literal not typed const: " ^ sv)
+       | TypeRules.NotLiteral -> ());
+      let r = if form = "decl" then TypeRules.decl_check t v lit else TypeRules.assign_check t v lit in
+      let m = Printf.sprintf "cast=%s;diag=%s" (b01 r.TypeRules.cr_cast) (b01 r.TypeRules.cr_diag) in
+      let i = Printf.sprintf "cast=%s;diag=%s" (b01 cast) (b01 diag) in
+      if m <> i then mismatch "semt" input i m;
+      let laws = if form = "decl" then TypeRulesSpec.c08_decl_laws t v lit cast diag
+        else TypeRulesSpec.c08_assign_laws t v lit cast diag in
+      L.iter (fun l -> oracle_fail "semt" input
+                 (Printf.sprintf "FAIL C08: %s: cast=%b diag=%b"
+                    (if int_of_n l = 1 then "neither a diagnostic nor a value of the target type (up to const)"
+                     else "downward conversion accepted without a diagnostic") cast diag)) laws;
+      let kn = if form = "decl" then TypeRulesSpec.c08_decl_known t v lit cast diag
+        else TypeRulesSpec.c08_assign_known t v lit cast diag in
+      L.iter (fun k -> known_hit "semt" (c08_key (int_of_n k)) input) kn;
+      if orc <> "ok" then oracle_fail "semt" input orc
+    end
+  | _ -> raise (Parse "bad semt line")
+
 (* ---------- main loop ---------- *)
 let () =
   Array.iter (fun a -> if a = "--nodedupe" then dedupe := false) Sys.argv;
@@ -423,6 +461,7 @@ let () =
              | "lex" -> handle_lex fields
              | "pk" -> handle_pk fields
              | "tree" -> handle_tree fields
+             | "semt" -> handle_semt fields
              | _ -> raise (Parse ("unknown family " ^ fam)))
           with Parse m -> report "DRIVER-ERROR" [m; line]; incr mismatches)
        | [] -> ()
